@@ -62,6 +62,16 @@ def run(ctx):
         inputs.append((list(d), False))
         inputs.append((list(d[:-1]), True))
         inputs.append((list(d[: len(d) // 2]), True))
+    # malformed streams whose stack holds very deeply nested containers when the error is detected (error paths that format or walk the
+    # stack must not trade the typed error for a RecursionError), and STOP on an empty stack
+    def i4(n):
+        return list(n.to_bytes(4, "big"))
+
+    deep_tuple = [2, 76] + ([64] + i4(1)) * 3000            # NONE, then 3000 x BUILDTUPLE(1): deeper than repr() / recursive walks can go
+    inputs.append((deep_tuple + [76, 81], False))            # ... plus a second item, STOP: stack size 2
+    inputs.append((deep_tuple + [80, 81], False))            # ... SETITEM on a non-container
+    inputs.append(([2, 81], False))
+    inputs.append(([81], False))
     seen = set()
     loads = []
     for inp, pre in inputs:
